@@ -361,8 +361,12 @@ func addr(parentAddr, typeName, blkName, qualifier string) string {
 // validIdent reports if the given string can
 // be used as an identifier in a reference.
 func validIdent(s string) bool {
-	_, err := cty.ParseNumberVal(s)
-	return err == nil || hclsyntax.ValidIdentifier(s)
+	// A number is read back as the name it was written for only in its
+	// canonical spelling: "007" or "1e3" come back as "7" and "1000".
+	if n, err := strconv.ParseUint(s, 10, 64); err == nil {
+		return strconv.FormatUint(n, 10) == s
+	}
+	return hclsyntax.ValidIdentifier(s)
 }
 
 func blockName(blk *hclsyntax.Block) (qualifier string, name string) {
